@@ -41,6 +41,7 @@ pub static SPEC: Spec = Spec {
         "sessions_completed",
         "big_log_session",
         "block+seek_elsewhere_in_proven_subtree",
+        "writer_clear_path_session",
         "second_hop_sessions",
         "second_hop_upgrade_served:live",
         "second_hop_upgrade_served:reopened",
@@ -354,6 +355,25 @@ fn directed(ctx: &mut Ctx, di: u64, r: &mut Rng) {
                 sess.writer_ops(&app(30, 3))?;
                 sess.request(ctx, &Plan { upgrade: Some(3), block: Some(2), seek: Some(sess.pair.writer.model.sizes[..2].iter().sum()), ..Default::default() })?;
             }
+            7 => {
+                // the writer's clear path: clears overlapping across a bitfield word boundary in
+                // every flush phase, writer reopen, then blocks around the cleared range are
+                // requested - cleared ones yield no proof, the others their bytes
+                sess.writer_ops(&[Op::Batch((0..48).map(|i| (i + 1, 2)).collect())])?;
+                for _ in 0..4 {
+                    sess.writer_ops(&[Op::Clear(32, 40)])?;
+                }
+                for _ in 0..4 {
+                    sess.writer_ops(&[Op::Clear(28, 40)])?;
+                }
+                sess.script.push(json!("reopen-writer"));
+                sess.pair.writer.reopen()?;
+                sess.request(ctx, &Plan { upgrade: Some(48), ..Default::default() })?;
+                for b in [27u64, 28, 31, 32, 39, 40, 47] {
+                    sess.request(ctx, &Plan { block: Some(b), ..Default::default() })?;
+                }
+                ctx.count("writer_clear_path_session");
+            }
             5 | 6 => {
                 // a large log crossing bitfield pages, blocks fetched pages apart
                 let n: u32 = if di == 5 { 33_000 } else { 70_000 };
@@ -362,7 +382,11 @@ fn directed(ctx: &mut Ctx, di: u64, r: &mut Rng) {
                 let res = sess.pair.round(&Plan { upgrade: Some(n as u64), block: Some(n as u64 - 2), ..Default::default() });
                 res.map_err(|mut f| { f.sig = format!("{}|big", f.sig); f })?;
                 sess.pair.replica.check(CMP_HAS, 64, "big log")?;
-                for b in [0u64, 8191, 8192, 32767, 32768, n as u64 - 1, 40_000 % n as u64] {
+                if di == 5 {
+                    // a clear that starts exactly on the second bitfield page
+                    sess.writer_ops(&[Op::Clear(32768, 32772)])?;
+                }
+                for b in [1u64, 32766, 32772, 0u64, 8191, 8192, 32767, 32768, n as u64 - 1, 40_000 % n as u64] {
                     sess.pair.round(&Plan { block: Some(b), ..Default::default() }).map_err(|mut f| { f.sig = format!("{}|big", f.sig); f })?;
                     ctx.count("proofs");
                 }
